@@ -921,6 +921,10 @@ def expand(
                 # Create a subquery with the same alias (or table name if no alias)
                 parsed_source = source() if callable(source) else source
                 subquery = parsed_source.subquery(node.alias or name)
+                alias = node.args.get("alias")
+                if alias and alias.columns:
+                    # keep the column list of `x AS z(a, b)`
+                    subquery.args["alias"].set("columns", [c.copy() for c in alias.columns])
                 subquery.comments = [f"source: {name}"]
 
                 # Continue expanding within the subquery
